@@ -1,0 +1,104 @@
+//go:build verif
+
+// White-box access for the /verif C19 check (the raft core's view of its log).
+// Compiled only with -tags verif. Add-only: nothing here is referenced by the
+// regular build.
+
+package raft
+
+import (
+	"github.com/lni/dragonboat/v4/internal/server"
+	pb "github.com/lni/dragonboat/v4/raftpb"
+)
+
+// VerifC19 wraps a real entryLog (over the given ILogDB) inside a minimal raft
+// and Peer, so that the real GetUpdate / Commit / restore / handleReplicate
+// code paths can be driven.
+type VerifC19 struct {
+	p  Peer
+	el *entryLog
+}
+
+// VerifC19New builds entryLog + Peer the way newRaft does for the log part.
+// committed > 0 mimics raft.loadState on restart.
+func VerifC19New(logdb ILogDB, committed uint64) *VerifC19 {
+	el := newEntryLog(logdb, server.NewInMemRateLimiter(0))
+	if committed > el.committed {
+		el.committed = committed
+	}
+	r := &raft{log: el}
+	v := &VerifC19{p: Peer{raft: r}, el: el}
+	v.p.prevState = r.raftState()
+	return v
+}
+
+// VerifC19SetApplyLimit replaces maxEntriesToApplySize, returns the old value.
+func VerifC19SetApplyLimit(v uint64) uint64 {
+	old := maxEntriesToApplySize
+	maxEntriesToApplySize = v
+	return old
+}
+
+// Append is entryLog.append (what the leader path and tryAppend call).
+func (v *VerifC19) Append(ents []pb.Entry) { v.el.append(ents) }
+
+// Replicate runs the real follower handler for a Replicate message.
+func (v *VerifC19) Replicate(logIndex, logTerm, commit uint64, ents []pb.Entry) error {
+	v.p.raft.msgs = nil
+	return v.p.raft.handleReplicateMessage(pb.Message{
+		Type: pb.Replicate, LogIndex: logIndex, LogTerm: logTerm, Commit: commit, Entries: ents,
+	})
+}
+
+// CommitTo is entryLog.commitTo.
+func (v *VerifC19) CommitTo(index uint64) { v.el.commitTo(index) }
+
+// Restore runs the real raft.restore (log part: guard, matchTerm, commitTo or restore).
+func (v *VerifC19) Restore(index, term uint64) (bool, error) {
+	return v.p.raft.restore(pb.Snapshot{Index: index, Term: term})
+}
+
+// GetUpdate / Commit are the real Peer methods.
+func (v *VerifC19) GetUpdate(more bool, lastApplied uint64) (pb.Update, error) {
+	return v.p.GetUpdate(more, lastApplied)
+}
+func (v *VerifC19) Commit(ud pb.Update) { v.p.Commit(ud) }
+
+// views
+func (v *VerifC19) FirstIndex() uint64              { return v.el.firstIndex() }
+func (v *VerifC19) LastIndex() uint64               { return v.el.lastIndex() }
+func (v *VerifC19) Term(index uint64) (uint64, error) { return v.el.term(index) }
+func (v *VerifC19) GetEntries(low, high, maxSize uint64) ([]pb.Entry, error) {
+	return v.el.getEntries(low, high, maxSize)
+}
+func (v *VerifC19) EntriesToSave() []pb.Entry { return v.el.entriesToSave() }
+func (v *VerifC19) EntriesToApply() ([]pb.Entry, error) {
+	return v.el.entriesToApply()
+}
+func (v *VerifC19) HasEntriesToApply() bool { return v.el.hasEntriesToApply() }
+func (v *VerifC19) Committed() uint64       { return v.el.committed }
+func (v *VerifC19) Processed() uint64       { return v.el.processed }
+
+// VerifC19InMem is a copy of the inMemory fields.
+type VerifC19InMem struct {
+	HasSnapshot    bool
+	SnapshotIndex  uint64
+	SnapshotTerm   uint64
+	Entries        []pb.Entry
+	SavedTo        uint64
+	MarkerIndex    uint64
+	AppliedToIndex uint64
+	AppliedToTerm  uint64
+}
+
+func (v *VerifC19) InMem() VerifC19InMem {
+	im := &v.el.inmem
+	r := VerifC19InMem{
+		Entries: im.entries, SavedTo: im.savedTo, MarkerIndex: im.markerIndex,
+		AppliedToIndex: im.appliedToIndex, AppliedToTerm: im.appliedToTerm,
+	}
+	if im.snapshot != nil {
+		r.HasSnapshot, r.SnapshotIndex, r.SnapshotTerm = true, im.snapshot.Index, im.snapshot.Term
+	}
+	return r
+}
